@@ -116,8 +116,8 @@ def r2(ctx):
                 pl = e.args[0]
                 op = e.args[1] if len(e.args) > 1 else e.kwargs.get("opcode")
                 ok = op == C(8) and isinstance(pl, App) and pl.op == "concat" and len(pl.args) == 2 \
-                    and isinstance(pl.args[0], App) and pl.args[0].op == "pack" and pl.args[0].args[0] in (C("!H"), C(">H")) \
-                    and pl.args[0].args[1] == Sym("status", "int") and pl.args[1] == Sym("reason", "bytes")
+                    and isinstance(pl.args[0], App) and pl.args[0].op == "be" and pl.args[0].args[1] == C(2) \
+                    and pl.args[0].args[0] == Sym("status", "int") and pl.args[1] == Sym("reason", "bytes")
                 if not ok:
                     bad = bad or (e, o)
         if n == 0:
